@@ -282,7 +282,7 @@ func (c *ctx) deepCopyCheck(R string, f *ssa.Function) {
 				}
 				return true
 			case *ssa.Call:
-				if n := calleeName(x.Common()); n == "bytes.Clone" || strings.HasPrefix(n, "slices.Clone") {
+				if n := calleeName(x.Common()); n == "bytes.Clone" || strings.HasPrefix(n, "slices.Clone") || strings.HasPrefix(n, "maps.Clone") {
 					// a clone of a flat slice is fresh; of a slice of references it is shallow (reported below)
 					return true
 				}
